@@ -12,6 +12,12 @@ def run(ctx):
                        fluct=i % 2, scale=[0.3, 5, 50][i % 3], order=["none", "reindex_shuffle", "reindex_status"][i % 3],
                        inflight=[0, 2][i % 2], maxsteps=60000, diag=0, msc=[1, 0, 1][i % 3],
                        field=[0, 1, 0.1, 0][i % 4]))
+    # a deterministic step limit commensurate with the geometry: the boundary is reached exactly at the physics
+    # limit (charged tracks from the origin along an axis, 20 x 0.25 cm = the inner box half-width)
+    for i in range(6 if q else 30):
+        cs.append(dict(seed=ctx.seed + 3500 + i, slots=[2, 8][i % 2], events=6, prims=3, ptype=[1, 2][i % 2], emax=[30, 300][i % 2],
+                       emin=3, dets=0, fluct=0, scale=[0.01, 1][i % 2], order="none", inflight=0, maxsteps=60000, diag=0,
+                       fixedstep=[0.25, 0.5, 1.25][i % 3], axial=1, field=0, msc=0))
     tot, outs = coreloop.validate(ctx, cs, ["C05."], nshards=8)
     ctx.coverage.update({"states": st, "transitions": tr, "traces_validated_against_impl": tot["runs"],
                          "samples": coreloop.sample_records(outs, kinds=("Post",)), "evaluations": tot["steps"],
